@@ -258,11 +258,15 @@ def toolchain(need_boots=True, timeout=3000):
                   cannon=os.path.join(bind, "dora-cannon-compiler"),
                   boots=os.path.join(bind, "dora-boots-compiler"), hash=th, log="")
         if os.path.exists(stamp) or os.path.exists(os.path.join(d, "ok-boots")):
+            os.utime(d, None)     # mark as recently used
             return tc
-        # drop older tool chains (disk)
+        # drop old tool chains (disk), but never one that may still be in use by a concurrent check:
+        # keep the 3 most recently used and anything touched in the last 2 hours
         if os.path.isdir(root):
-            for o in os.listdir(root):
-                if o != th:
+            others = [o for o in os.listdir(root) if o != th]
+            others.sort(key=lambda o: os.path.getmtime(os.path.join(root, o)), reverse=True)
+            for o in others[2:]:
+                if time.time() - os.path.getmtime(os.path.join(root, o)) > 7200:
                     shutil.rmtree(os.path.join(root, o), ignore_errors=True)
         os.makedirs(bind, exist_ok=True)
         # `dora` looks for the std/boots sources in an ancestor directory named pkgs
@@ -271,19 +275,22 @@ def toolchain(need_boots=True, timeout=3000):
             os.symlink(os.path.join(REPO, "pkgs"), lnk)
         tgt = os.path.join(BUILD, "repo-target")
         env = {"CARGO_TARGET_DIR": tgt}
-        rc, out = sh(["cargo", "build", "--offline", "-p", "dora", "-p", "dora-cannon-compiler",
-                      "-p", "dora-runtime", "-p", "dora-startup", "-p", "dora-format",
-                      "-p", "dora-language-server"],
-                     cwd=REPO, env=env, timeout=timeout)
-        tc["log"] = out
-        if rc != 0:
-            raise RuntimeError("cargo build of /repo failed:\n" + out[-4000:])
-        dbg = os.path.join(tgt, "debug")
-        for f in ["dora", "dora-cannon-compiler", "libdora_runtime.a", "libdora_startup.a",
-                  "dora-format", "dora-language-server"]:
-            if os.path.exists(os.path.join(dbg, f)):
-                shutil.copy2(os.path.join(dbg, f), os.path.join(bind, f))
-        open(os.path.join(d, "ok-cannon"), "w").write(th)
+        if not os.path.exists(os.path.join(d, "ok-cannon")):
+            rc, out = sh(["cargo", "build", "--offline", "-p", "dora", "-p", "dora-cannon-compiler",
+                          "-p", "dora-runtime", "-p", "dora-startup", "-p", "dora-format",
+                          "-p", "dora-language-server"],
+                         cwd=REPO, env=env, timeout=timeout)
+            tc["log"] = out
+            if rc != 0:
+                raise RuntimeError("cargo build of /repo failed:\n" + out[-4000:])
+            dbg = os.path.join(tgt, "debug")
+            for f in ["dora", "dora-cannon-compiler", "libdora_runtime.a", "libdora_startup.a",
+                      "dora-format", "dora-language-server"]:
+                if os.path.exists(os.path.join(dbg, f)):
+                    tmpf = os.path.join(bind, f + ".tmp%d" % os.getpid())
+                    shutil.copy2(os.path.join(dbg, f), tmpf)
+                    os.replace(tmpf, os.path.join(bind, f))
+            open(os.path.join(d, "ok-cannon"), "w").write(th)
         if need_boots:
             pk = os.path.join(d, "boots.dora-package")
             steps = [
@@ -299,7 +306,9 @@ def toolchain(need_boots=True, timeout=3000):
                 tc["log"] += out
                 if rc != 0:
                     raise RuntimeError("bootstrap step failed: %s\n%s" % (" ".join(st), out[-4000:]))
-            shutil.copy2(os.path.join(d, "stage2"), tc["boots"])
+            tmpf = tc["boots"] + ".tmp%d" % os.getpid()
+            shutil.copy2(os.path.join(d, "stage2"), tmpf)
+            os.replace(tmpf, tc["boots"])
             open(os.path.join(d, "ok-boots"), "w").write(th)
         return tc
 
